@@ -65,7 +65,7 @@ func (c *Conn) handleSelect(tag string, dec *imapwire.Decoder, readOnly bool) er
 	}
 
 	c.state = imap.ConnStateSelected
-	// TODO: forbid write commands in read-only mode
+	c.readOnly = readOnly
 
 	var (
 		cmdName string
@@ -94,7 +94,7 @@ func (c *Conn) handleUnselect(dec *imapwire.Decoder, expunge bool) error {
 		return err
 	}
 
-	if expunge {
+	if expunge && !c.readOnly {
 		w := &ExpungeWriter{}
 		if err := c.session.Expunge(w, nil); err != nil {
 			return err
